@@ -4,7 +4,7 @@ from props import COMMON_TRUST
 def nontrivial(tok, res):
     if tok[0] in ("req", "treq"):
         return res.startswith("be=") and not res.startswith("be=-")
-    if tok[0] in ("ws", "connect", "tws", "tconnect"):
+    if tok[0] in ("ws", "connect", "tws", "tconnect", "h2c"):
         return "up=" in res
     if tok[0] == "silent":
         return True
@@ -29,6 +29,19 @@ def result_class(r):
     return r.split(" ")[0][:14]
 
 
+def e2e_nontrivial(tok, res):
+    return tok[0] == "hx" and res.startswith("be=") and not res.startswith("be=-")
+
+
+def e2e_class(r):
+    # proxy of the lattice (kind/enc/comp/limiter) x how the user's read ended x body beyond one small burst
+    if not r.startswith("be="):
+        return r[:20]
+    kv = dict(x.split("=", 1) for x in r.split(";") if "=" in x)
+    big = lambda v: v not in (None, "-") and int(v.split(".")[0]) > 8192
+    return "%s end=%s%s%s" % (kv.get("be"), kv.get("end"), " up>burst" if big(kv.get("up")) else "", " down>burst" if big(kv.get("down")) else "")
+
+
 PROP = {
     "level": "proof",
     "gens": [],
@@ -48,10 +61,16 @@ PROP = {
         "Frp.C02.header_timeout_bounded", "Frp.C02.answer_backend_iff", "Frp.C02.ctx_deadline_cuts_stream",
         "Frp.C02.connect_tunnel_transparent", "Frp.C02.upgrade_tunnel_transparent", "Frp.C02.ctx_deadline_cuts_tunnel",
         "Frp.C02.timedHolds_frp",
+        "Frp.C02.frp_upgrade_switches", "Frp.C02.upgrade_needs_hijacker", "Frp.C02.tunnelHolds_sound", "Frp.C02.tunnelHolds_model",
+        "Frp.C02.httpServerLayer_eq", "Frp.C02.e2e_request_delivered", "Frp.C02.e2e_request_prefix",
+        "Frp.C02.e2e_response_delivered", "Frp.C02.e2e_response_prefix", "Frp.C02.e2e_exchange_transparent",
+        "Frp.C02.limited_write_whole", "Frp.C02.e2eHolds_sound", "Frp.C02.model_e2eHolds",
     ],
     "engines": [
         {"name": "http", "quick_n": 3000, "thorough_n": 12000, "thorough_seeds": 4,
          "nontrivial": nontrivial, "result_class": result_class, "search_seeds": 2, "search_n": 3000},
+        {"name": "httpe2e", "quick_n": 60, "thorough_n": 300, "thorough_seeds": 3,
+         "nontrivial": e2e_nontrivial, "result_class": e2e_class, "search_seeds": 1, "search_n": 60, "reruns": 1},
     ],
     "rule": "http engine: a real vhost.HTTPReverseProxy behind a real http.Server on loopback; every route's CreateConnFn "
             "hands out a loopback TCP connection served by a recording raw HTTP/1.1 backend (exact request line, header "
@@ -60,7 +79,8 @@ PROP = {
             "hop-by-hop / forwarding headers, bodies empty / Content-Length / chunked up to 260 KiB, origin-form and "
             "absolute-form, 17 status codes, answers with Content-Length / chunked / close-delimited framing, route "
             "configs with RewriteHost / Headers / ResponseHeaders, register / unregister / re-register overlap, "
-            "unreachable and silent backends (ResponseHeaderTimeoutS=1), WebSocket upgrade and CONNECT tunnels, hosts "
+            "unreachable and silent backends (ResponseHeaderTimeoutS=1), WebSocket upgrade, h2c upgrade (RFC 7540 3.2, answer read as "
+            "HTTP/2 frames) and CONNECT tunnels, hosts "
             "spelling synthetic pool names, plus a malformed stream. TIMED exchanges (treq / tws / tconnect, about 30 "
             "per quick run, real sleeps): request bodies uploaded and answer bodies (cl / ch / eof) sent in 1-5 "
             "pieces with pauses, header block 0-300 ms or 1700 ms late, tunnels of 1-3 rounds with idle periods "
@@ -69,7 +89,23 @@ PROP = {
             "HttpTime.relay / upgrade / tunnel under frpLimits 1; timedHolds demands: backend reached, bodies byte for "
             "byte (len + FNV), the user's read ended at the end of the body, 504 only for a late header block. Non-trivial = a request or tunnel that reached a "
             "backend; distinct = distinct (op line, result). The Lean predicates reqHolds / respHolds / freshB are "
-            "evaluated on what the backend and the user really received.",
+            "evaluated on what the backend and the user really received; for upgrade / h2c / CONNECT ops tunnelHolds demands: "
+            "when a backend received the handshake (it records before it answers 101 / 200) the user gets that status and "
+            "every tunnel byte of both directions, otherwise 404 + the not-found page. "
+            "httpe2e engine: a real frps (vhost HTTP port) + real frpc in one process, 2 transport configurations (tcpMux / TLS / "
+            "pool on, all off), 24 http proxies each: useEncryption x useCompression x bandwidthLimit {none, 8KB server, 8KB "
+            "client, 1MB server, 1MB client} + 4 with the http2http client plugin, every proxy with its own recording raw "
+            "HTTP/1.1 backend (answers tagged with the proxy key). 68 exchanges per quick run on a persistent user "
+            "connection (work connections stay pooled between requests): GET / POST / PUT, request and answer bodies "
+            "Content-Length / chunked / close-delimited, sizes 0 .. 1.2 MiB with the classes burst-1, burst, burst+1, "
+            "1.2-2.6 bursts for the small limit (8192 < the 16 / 32 KiB copy buffers that feed limit.Writer) and above "
+            "1 MiB for the large one, random / zero / mixed-run content, header block and body in ONE write or in 1000 / "
+            "4096 / 16384-byte / random writes on either side; 8 fixed class representatives first (each limiter side with "
+            "a body above the burst in one write, both framings, plugin, large limit, large unlimited). e2eHolds demands: "
+            "the backend of the proxy named by Host got method, target and the body byte for byte (len + FNV-32a; bodies "
+            "up to 24 bytes in full), the user got that backend's status and body, the read ended at the end of the body. "
+            "A timeout alone is executed once more on a fresh connection before it counts; a truncated / different body, "
+            "status or backend is never retried. No upper time bound is checked.",
     "trusted": COMMON_TRUST + [
         "models Frp/Model/HttpRewrite.lean, HttpPool.lean written by hand from pkg/util/vhost/http.go and from the "
         "go1.23 sources of net/http/httputil.ReverseProxy, http.Transport, http.Server (those standard-library "
@@ -85,12 +121,18 @@ PROP = {
         "sniffing of unknown-length answers (timer race inside ReverseProxy) are taken from the implementation's result",
     ],
     "assumptions": [
-        "HTTP/1.1 only (no h2c), no trailers, no Expect: 100-continue, no gzip answers to Transport-added Accept-Encoding",
+        "HTTP/1.1 towards the backend, no trailers, no Expect: 100-continue, no gzip answers to Transport-added Accept-Encoding",
         "queries containing ';' or an invalid % escape are re-encoded by httputil.ReverseProxy (cleanQueryParams) before "
         "frp's hook runs: outside the model's domain (skipped, counted); the backend does NOT get such a query unchanged",
         "the four client plugins are driven directly (real plugin Handle, TLS on either side where the plugin "
-        "uses it), about 35 requests per quick run; the frps+frpc e2e lattice (encryption, compression, limiter, "
-        "mux) is not driven by this check",
+        "uses it), about 35 requests per quick run; through a real frps+frpc pair only http2http is driven (httpe2e), the "
+        "TLS plugins and the vhost HTTPS port are not",
+        "httpe2e: header rewriting is not compared there (engine http does that), only routing to the right backend, "
+        "request line, status, bodies and the end of the read; cipher / compression lawfulness and yamux / TLS / TCP "
+        "transports are C01's assumptions (Layers.Lawful), sampled here with real golib layers on both ends; real-time "
+        "cost of the 8 KB/s limiters bounds the volume (about 240 KB per quick run through them)",
+        "h2c: only the upgrade of RFC 7540 3.2 with one request (stream 1) is driven; prior-knowledge h2c (PRI) has no Host "
+        "and is answered 404 by frp's no-route branch; later streams of an upgraded connection are not driven",
         "TLS termination: X-Forwarded-Proto=https branch is proved but not sampled (vhost HTTP port is plain)",
         "time: only vhostHTTPTimeout = 1 s is sampled and exchanges of up to about 3 s; the default 60 s, "
         "Transport.IdleConnTimeout (60 s) and the http.Server of server/service.go (ReadHeaderTimeout only) are not "
@@ -99,7 +141,7 @@ PROP = {
 }
 
 META = {
-    "engine": "lean+harness(http)",
+    "engine": "lean+harness(http,httpe2e)",
     "design_ref": "DESIGN.md §6 C02, §7 item 14",
     "technique": "Lean 4 theorems over all requests / header maps / route configs / histories / time lines (per-header-key "
                  "characterisation of the Rewrite and ModifyResponse closures around the standard reverse proxy, "
@@ -119,8 +161,15 @@ META = {
             "code, KNOWN_FINDINGS C02-pool-stale-owner and C02-pool-key-as-host): pooled backend connections survive "
             "UnRegister and serve a re-registered route from the former owner's backend, and a Host header spelling a "
             "pool name reaches a backend without any route. The repaired model (key carries the registration id, "
-            "no-route requests never reach the Transport) satisfies the full statement for all histories. Tie: 3000 "
-            "generated ops per quick run, about 30 of them timed exchanges longer than / inside the header timeout.",
+            "no-route requests never reach the Transport) satisfies the full statement for all histories. Upgrades: the "
+            "handler gets http.Server's own (hijackable) writer, so the model's upgrade IS a tunnel; behind a writer that is no "
+            "Hijacker none is (upgrade_needs_hijacker). End to end: composed with C01's tunnel theorems (frps' GetRealConn "
+            "stack against frpc's different stack, limit.Writer's chunk loop) the request and answer bodies, in any "
+            "framing, written in any pieces, over any chunking of the wire, reach the other side unchanged for EVERY "
+            "combination of useEncryption / useCompression / bandwidthLimit mode and every burst > 0, prefixes at any "
+            "moment; one Write of any size through the limiter never asks WaitN for more than the burst. Tie: 3000 "
+            "generated ops per quick run on the real HTTPReverseProxy (about 30 timed exchanges, about 130 upgrades, 20 "
+            "h2c upgrades) + 68 exchanges through a real frps+frpc pair over the tunnel-option lattice.",
     "note": "Trusted: Lean kernel; hand-written models; net/http, httputil.ReverseProxy, http.Transport (assumed, "
             "sampled); harness generators and canonicalisation. Switch to the repaired model: HttpPool.poolIsFixed := true "
             "after committing hooks/C02-fix-pool-key.patch.",
